@@ -410,6 +410,14 @@ func check(id, tier string) int {
 	}
 	wg.Wait()
 	shardErr := ""
+	for _, e := range errs {
+		if e != "" { // kept for post-mortems: the console shows the first error only
+			if f, ferr := os.OpenFile(filepath.Join(verifDir, ".work", "shard-errors.log"), os.O_APPEND|os.O_CREATE|os.O_WRONLY, 0o644); ferr == nil {
+				fmt.Fprintf(f, "==== %s %s %s\n%s\n", time.Now().Format(time.RFC3339), id, tier, e)
+				f.Close()
+			}
+		}
+	}
 	for i, o := range outs {
 		if o != nil && o.Aborted != "" && shardErr == "" {
 			shardErr = fmt.Sprintf("shard %d: %s", i, o.Aborted)
